@@ -31,6 +31,107 @@ fn kind_table(quick: bool) -> Vec<(&'static str, &'static str, Vec<u8>)> {
     v
 }
 
+
+// ---------------- filtered entries (long-running filter process => stream entries of unknown length) ----------------
+
+/// The filter process (`g-diff --filter-process`), speaking git's long-running filter protocol through gix-filter's server.
+/// smudge: input `C <n1> <n2> ...\n<payload>` -> the payload, written as packets of n1, n2, ... bytes (the rest in one write);
+/// any other input -> `F:` + input in a single write (split by the packet writer into packets of at most 65516 bytes).
+pub fn filter_process() -> Result<(), Box<dyn std::error::Error>> {
+    use gix_filter::driver::process;
+    use std::io::Write;
+    let mut srv = process::Server::handshake(
+        std::io::stdin(),
+        std::io::stdout(),
+        "git-filter",
+        &mut |versions| versions.contains(&2).then_some(2),
+        &["clean", "smudge"],
+    )?;
+    while let Some(mut request) = srv.next_request()? {
+        let mut buf = Vec::new();
+        request.as_read().read_to_end(&mut buf)?;
+        match request.command.as_str() {
+            "smudge" => {
+                request.write_status(process::Status::success())?;
+                {
+                    let mut out = request.as_write();
+                    for chunk in smudge_chunks(&buf) {
+                        out.write_all(&chunk)?;
+                    }
+                }
+                request.write_status(process::Status::Previous)?;
+            }
+            _ => {
+                request.write_status(process::Status::success())?;
+                request.as_write().write_all(&buf)?;
+                request.write_status(process::Status::Previous)?;
+            }
+        }
+    }
+    Ok(())
+}
+
+/// what the filter writes for a blob, write by write
+fn smudge_chunks(blob: &[u8]) -> Vec<Vec<u8>> {
+    if let Some(rest) = blob.strip_prefix(b"C ") {
+        if let Some(nl) = rest.iter().position(|&b| b == b'\n') {
+            let sizes: Vec<usize> = String::from_utf8_lossy(&rest[..nl]).split(' ').filter_map(|t| t.parse().ok()).collect();
+            let mut payload = &rest[nl + 1..];
+            let mut v = Vec::new();
+            for n in sizes {
+                let n = n.min(payload.len());
+                if n > 0 {
+                    v.push(payload[..n].to_vec());
+                    payload = &payload[n..];
+                }
+            }
+            if !payload.is_empty() {
+                v.push(payload.to_vec());
+            }
+            return v;
+        }
+    }
+    let mut out = b"F:".to_vec();
+    out.extend_from_slice(blob);
+    vec![out]
+}
+
+#[derive(Serialize, Deserialize, Hash, Clone, Debug)]
+struct FilterCase {
+    /// entries in tree order: (name, spec); names starting with `f` carry `filter=vf`.
+    /// spec: `out=<n>` blob whose filtered form has n bytes | `chunks=<n1>,<n2>,..` payload written in these packet sizes | `plain=<n>`
+    entries: Vec<(String, String)>,
+}
+
+/// (blob content, expected content in the stream)
+fn filter_entry(_name: &str, spec: &str) -> (Vec<u8>, Vec<u8>) {
+    let (kind, arg) = spec.split_once('=').unwrap_or((spec, ""));
+    match kind {
+        "out" => {
+            let n: usize = arg.parse().unwrap_or(2);
+            let blob = vkit::enumerate::lcg_bytes(n.saturating_sub(2), n as u64)
+                .into_iter()
+                .map(|b| b'a' + b % 26)
+                .collect::<Vec<u8>>();
+            let expected = smudge_chunks(&blob).concat();
+            (blob, expected)
+        }
+        "chunks" => {
+            let sizes: Vec<usize> = arg.split(',').filter_map(|t| t.parse().ok()).collect();
+            let total: usize = sizes.iter().sum();
+            let payload: Vec<u8> = (0..total).map(|i| b'0' + (i % 10) as u8).collect();
+            let mut blob = format!("C {}\n", sizes.iter().map(|n| n.to_string()).collect::<Vec<_>>().join(" ")).into_bytes();
+            blob.extend_from_slice(&payload);
+            (blob, payload)
+        }
+        _ => {
+            let n: usize = arg.parse().unwrap_or(0);
+            let blob: Vec<u8> = (0..n).map(|i| b'A' + (i % 26) as u8).collect();
+            (blob.clone(), blob)
+        }
+    }
+}
+
 #[derive(Serialize, Deserialize, Hash, Clone, Debug)]
 struct Case {
     tree: Map,
@@ -236,7 +337,11 @@ pub fn run(run: &'static Run) {
          (quick: 2-entry trees only on the slot pairs (a, d/e/c) and (d/b, d/e/c); extras {{none, file, link}} for 1-entry trees + {{dir, gitlink}} after a 1-byte file, a 65536-byte file and a symlink, {{file}} for 2-entry trees). Per case: (1) stream entries \
          (path, mode, id, content) == blobs/executables/symlinks of the tree + the additional entry, each once; (2) tar written by gix-archive == `git archive --format=tar` + the additional entry, both read by an independent header reader \
          (checksums verified), and additionally extracted with tar(1) for trees with <=1 entry (quick: the empty tree with every extra + each kind once at d/e/c); (3) zip written by gix-archive, read by an independent \
-         central-directory reader (inflate + CRC) and, for the same trees, extracted with unzip(1): names, unix modes (symlink / executable bit), contents == the same listing. non-trivial = the tree has at least one streamed entry.",
+         central-directory reader (inflate + CRC) and, for the same trees, extracted with unzip(1): names, unix modes (symlink / executable bit), contents == the same listing. non-trivial = the tree has at least one streamed entry. \
+         sub `filtered`: trees with 1-2 blobs converted by a long-running filter process (this binary, `--filter-process`, gix-filter's process server; \
+         attribute filter=vf) whose output has 2|3|65515|65516|65517|65534|65535|65536|131032|131033 bytes (quick: 3|65516|65517|65536|131033; one packet = 65516, \
+         stream buffer = 65535), optionally followed by a plain blob; plus every composition of a 1..=7 (quick 1..=5) byte payload into packets, followed by a \
+         filtered and a plain blob. Oracle: stream entries and tar contents == the filter's full output per entry, every entry present once, no error.",
         if quick { 2 } else { 3 }
     ));
     run.assume("git archive, GNU tar and Info-ZIP unzip are trusted; only files and symlinks are compared (git archive adds an empty directory per gitlink, gitoxide documents that it streams none); permissions are compared by the executable bit only (git applies tar.umask)");
@@ -534,6 +639,214 @@ pub fn run(run: &'static Run) {
             ))
         },
     );
+
+    // ---- sub: entries converted by a long-running filter process (chunked "unknown length" stream encoding) ----
+    let exe = std::env::current_exe().unwrap_or_else(|e| vkit::machinery!("current_exe: {e}"));
+    let filtered_big = AtomicU64::new(0);
+    let chunked = AtomicU64::new(0);
+    // all cases first: the fixture (one repository with every blob and tree) is built from them; a replay rebuilds it for its case only
+    let filter_cases: Vec<FilterCase> = if let Some(c) = run.replay_case::<FilterCase>("filtered") {
+        vec![c]
+    } else if run.is_replay() {
+        Vec::new()
+    } else {
+        let mut all = Vec::new();
+        {
+            let mut emit = |c: FilterCase| all.push(c);
+
+            // (a) filtered output sizes around one packet (65516), the stream buffer (65535) and two packets, in 1-2 filtered
+            //     entries followed by an optional plain entry
+            let sizes: &[usize] = if quick { &[3, 65516, 65517, 65536, 131033] } else { &[2, 3, 65515, 65516, 65517, 65534, 65535, 65536, 131032, 131033] };
+            let mut opt: Vec<Option<usize>> = vec![None];
+            opt.extend(sizes.iter().map(|n| Some(*n)));
+            for f1 in &opt {
+                for f2 in &opt {
+                    for plain in [false, true] {
+                        let mut entries = Vec::new();
+                        if let Some(n) = f1 {
+                            entries.push(("f1".to_string(), format!("out={n}")));
+                        }
+                        if let Some(n) = f2 {
+                            entries.push(("f2".to_string(), format!("out={n}")));
+                        }
+                        if plain {
+                            entries.push(("z".to_string(), "plain=5".to_string()));
+                        }
+                        if entries.iter().any(|e| e.0.starts_with('f')) {
+                            emit(FilterCase { entries });
+                        }
+                    }
+                }
+            }
+            // (b) every chunking (composition) of a small payload into packets, followed by a filtered and a plain entry
+            for total in 1..=run.pick(5usize, 7) {
+                for mask in 0u32..(1 << (total - 1)) {
+                    let mut parts = Vec::new();
+                    let mut cur = 1;
+                    for bit in 0..total - 1 {
+                        if mask & (1 << bit) != 0 {
+                            parts.push(cur);
+                            cur = 1;
+                        } else {
+                            cur += 1;
+                        }
+                    }
+                    parts.push(cur);
+                    let spec = format!("chunks={}", parts.iter().map(|n: &usize| n.to_string()).collect::<Vec<_>>().join(","));
+                    emit(FilterCase {
+                        entries: vec![("f1".to_string(), spec), ("f2".to_string(), "out=3".to_string()), ("z".to_string(), "plain=5".to_string())],
+                    });
+                }
+            }
+        }
+        all
+    };
+    let frepo = vkit::scratch::Dir::new("c55filtered").keep();
+    git::init(&frepo);
+    let mut blob_of: HashMap<String, String> = HashMap::new(); // spec -> blob id
+    let mut tree_of: HashMap<Vec<(String, String)>, ObjectId> = HashMap::new();
+    if !filter_cases.is_empty() {
+        let blob_dir = vkit::scratch::Dir::new("c55fblobs");
+        let mut specs: Vec<&String> = filter_cases.iter().flat_map(|c| c.entries.iter().map(|e| &e.1)).collect();
+        specs.sort();
+        specs.dedup();
+        let mut paths = String::new();
+        for (i, spec) in specs.iter().enumerate() {
+            let p = blob_dir.join(format!("{i}"));
+            std::fs::write(&p, filter_entry("f", spec).0).unwrap_or_else(|e| vkit::machinery!("write blob: {e}"));
+            paths.push_str(&format!("{}\n", p.display()));
+        }
+        let out = git::git_in(&frepo, &["hash-object", "-w", "--no-filters", "--stdin-paths"], paths.as_bytes());
+        let ids: Vec<String> = String::from_utf8_lossy(&out).lines().map(str::to_string).collect();
+        if ids.len() != specs.len() {
+            vkit::machinery!("hash-object returned {} ids for {} blobs", ids.len(), specs.len());
+        }
+        for (spec, id) in specs.iter().zip(ids) {
+            blob_of.insert((*spec).clone(), id);
+        }
+        let input = filter_cases
+            .iter()
+            .map(|c| c.entries.iter().map(|(name, spec)| format!("100644 blob {}\t{name}\n", blob_of[spec])).collect::<String>())
+            .collect::<Vec<_>>()
+            .join("\n");
+        let out = git::git_in(&frepo, &["mktree", "--batch"], input.as_bytes());
+        let ids: Vec<String> = String::from_utf8_lossy(&out).lines().map(str::to_string).collect();
+        if ids.len() != filter_cases.len() {
+            vkit::machinery!("mktree --batch returned {} ids for {} trees", ids.len(), filter_cases.len());
+        }
+        for (c, id) in filter_cases.iter().zip(ids) {
+            tree_of.insert(c.entries.clone(), ObjectId::from_hex(id.as_bytes()).unwrap_or_else(|e| vkit::machinery!("mktree id: {e}")));
+        }
+    }
+    let fstore = std::sync::Arc::new(
+        gix_odb::Store::at_opts(frepo.join(".git/objects"), &mut None.into_iter(), gix_odb::store::init::Options::default())
+            .unwrap_or_else(|e| vkit::machinery!("gix-odb cannot open fixture: {e}")),
+    );
+    run.sub_with(
+        "filtered",
+        Opts::default().chunk(64).watchdog(600.0),
+        |emit| {
+            for c in &filter_cases {
+                emit(c.clone());
+            }
+        },
+        |c: &FilterCase| -> Verdict {
+            let Some(&tree_id) = tree_of.get(&c.entries) else { vkit::machinery!("case refers to a tree outside the fixture") };
+            let mut expected: Listing = c.entries.iter().map(|(name, s)| (name.clone(), "file", filter_entry(name, s).1)).collect();
+            let odb: gix_odb::HandleArc = fstore.to_cache_arc();
+            expected.sort();
+            let make_stream = || {
+                let mut collection = gix_attributes::search::MetadataCollection::default();
+                let mut search = gix_attributes::Search::default();
+                search.add_patterns_buffer(b"f* filter=vf\n", "<check>".into(), None, &mut collection, true);
+                let pipeline = gix_filter::Pipeline::new(
+                    Default::default(),
+                    gix_filter::pipeline::Options {
+                        drivers: vec![gix_filter::Driver {
+                            name: "vf".into(),
+                            clean: None,
+                            smudge: None,
+                            process: Some(format!("{} --filter-process", exe.display()).into()),
+                            required: true,
+                        }],
+                        ..Default::default()
+                    },
+                );
+                gix_worktree_stream::from_tree(tree_id, odb.clone(), pipeline, move |path, mode, out| {
+                    out.initialize(&collection);
+                    search.pattern_matching_relative_path(path, gix_attributes::glob::pattern::Case::Sensitive, Some(mode.is_tree()), out);
+                    Ok::<_, std::convert::Infallible>(())
+                })
+            };
+            // (1) the stream
+            let mut stream = make_stream();
+            let mut seen: Listing = Vec::new();
+            let mut unknown_len = 0;
+            loop {
+                let mut entry = match stream.next_entry() {
+                    Ok(Some(e)) => e,
+                    Ok(None) => break,
+                    Err(e) => return bad("filtered-stream-error", format!("after [{}]: {e}", brief(&seen))),
+                };
+                let path = entry.relative_path().to_string();
+                if entry.bytes_remaining().is_none() {
+                    unknown_len += 1;
+                }
+                let mut buf = Vec::new();
+                if let Err(e) = entry.read_to_end(&mut buf) {
+                    return bad("filtered-read-error", format!("{path}: {e}"));
+                }
+                seen.push((path, "file", buf));
+            }
+            seen.sort();
+            if seen != expected {
+                let class = if seen.len() == expected.len() && seen.iter().zip(&expected).all(|(a, b)| a.0 == b.0 && b.2.starts_with(&a.2)) {
+                    "filtered-truncated"
+                } else {
+                    "filtered-entries"
+                };
+                return bad(class, format!("stream yielded [{}], expected [{}]", brief(&seen), brief(&expected)));
+            }
+            // (2) the same through the tar writer
+            let mut tar = Vec::new();
+            let mut stream = make_stream();
+            if let Err(e) = gix_archive::write_stream(
+                &mut stream,
+                gix_worktree_stream::Stream::next_entry,
+                &mut tar,
+                gix_archive::Options { format: gix_archive::Format::Tar, tree_prefix: None, modification_time: 1112911993 },
+            ) {
+                return bad("filtered-tar-error", e);
+            }
+            match parse_tar(&tar) {
+                Ok((got, _)) if got == expected => {}
+                Ok((got, _)) => return bad("filtered-tar-content", format!("tar holds [{}], expected [{}]", brief(&got), brief(&expected))),
+                Err(e) => return bad("tar-unreadable", e),
+            }
+            let filtered = c.entries.iter().filter(|e| e.0.starts_with('f')).count();
+            if unknown_len != filtered {
+                // not a property violation, but the sub-check would not exercise what it claims to
+                vkit::machinery!("{unknown_len} entries of unknown length for {filtered} filtered entries");
+            }
+            let big = expected.iter().filter(|e| e.0.starts_with('f') && e.2.len() > 65516).count();
+            if big > 0 {
+                filtered_big.fetch_add(1, Ordering::Relaxed);
+            }
+            if c.entries.iter().any(|e| e.1.starts_with("chunks=") && e.1.contains(',')) {
+                chunked.fetch_add(1, Ordering::Relaxed);
+                return ok("filtered/multi-packet-small");
+            }
+            ok(match big {
+                0 => "filtered/single-packet",
+                1 => "filtered/one-entry-over-a-packet",
+                _ => "filtered/two-entries-over-a-packet",
+            })
+        },
+    );
+    run.cov("filtered_cases_with_output_over_one_packet", filtered_big.load(Ordering::Relaxed));
+    run.cov("filtered_cases_with_small_multi_packet_output", chunked.load(Ordering::Relaxed));
+    run.require("a filtered entry larger than one packet was streamed", filtered_big.load(Ordering::Relaxed) > 0);
+    run.require("a small payload delivered in several packets was streamed", chunked.load(Ordering::Relaxed) > 0);
     run.cov(
         "stage_thread_ms[stream,tar,git-archive,compare,zip-write,zip-read]",
         stage_us.iter().map(|a| a.load(Ordering::Relaxed) / 1000).collect::<Vec<_>>(),
